@@ -193,20 +193,31 @@ def _scenarios(ctx, res, M, core, root):
         m0 = None
         with warnings.catch_warnings():
             warnings.simplefilter("ignore")
-            if whole:
-                m0, _ = _make_mineral(M, core, rng, combos[ci % len(combos)], n=int(rng.integers(1, 9)), snaps=int(rng.integers(1, 4)))
-                ci += 1
-                m0.save(fstr)
-                script.append(f"SAVE {_enc(rel)} - {_tok(m0)}")
-                exp.append("ok")
+            # the whole-file save comes first, or (every other such scenario) somewhere in the middle,
+            # where it replaces the archive: postfixes saved before it are gone
+            whole_pos = 0 if (not whole or s % 8 == 1) else int(rng.integers(0, k + 1))
             last = {}
-            for i in order:
+            lost = set()
+            for pos, i in enumerate(list(order) + [None]):
+                if whole and pos == whole_pos:
+                    m0, _ = _make_mineral(M, core, rng, combos[ci % len(combos)], n=int(rng.integers(1, 9)), snaps=int(rng.integers(1, 4)))
+                    ci += 1
+                    m0.save(fstr)
+                    script.append(f"SAVE {_enc(rel)} - {_tok(m0)}")
+                    exp.append("ok")
+                    lost |= set(last)
+                    last = {}
+                    if pos > 0:
+                        res.count("scenario:whole_file_save_in_the_middle")
+                if i is None:
+                    break
+                lost.discard(pfs[i])
                 minerals[i].save(fstr, postfix=pfs[i])
                 script.append(f"SAVE {_enc(rel)} {_enc(pfs[i])} {_tok(minerals[i])}")
                 exp.append("ok")
                 last[pfs[i]] = minerals[i]
             if resave:
-                i = int(order[0])
+                i = int(order[-1])
                 extra, _ = _make_mineral(M, core, rng, combos[ci % len(combos)], n=int(rng.integers(1, 9)), snaps=int(rng.integers(1, 4)))
                 ci += 1
                 extra.save(fstr, postfix=pfs[i])
@@ -218,10 +229,25 @@ def _scenarios(ctx, res, M, core, root):
         res.count(f"scenario:minerals={k}")
         res.count("scenario:whole_file_first" if whole else "scenario:postfix_only")
         # loads in a random order through both loaders
-        targets = [(pf, last[pf]) for pf in pfs] + ([(None, m0)] if whole else [])
+        targets = [(pf, last.get(pf)) for pf in pfs] + ([(None, m0)] if whole else [])
         for t in rng.permutation(len(targets)):
             pf, orig = targets[int(t)]
             for how in ("from_file", "load"):
+                if orig is None:
+                    # saved before a whole-file save replaced the archive: not recoverable (modelled, outside the property)
+                    n_t = 2
+                    try:
+                        if how == "from_file":
+                            got = M.Mineral.from_file(fstr, postfix=pf)
+                        else:
+                            got = M.Mineral(n_grains=n_t)
+                            got.load(fstr, postfix=pf)
+                        exp.append("ok " + _tok(got))   # only through numpy's ".npy" fallback
+                    except Exception as e:
+                        exp.append(_exc_name(e))
+                    script.append(f"FROM {_enc(rel)} {_enc(pf)}" if how == "from_file" else f"LOAD {_enc(rel)} {_enc(pf)} {n_t}")
+                    res.count("load:replaced_by_whole_file_save")
+                    continue
                 try:
                     if how == "from_file":
                         got = M.Mineral.from_file(fstr, postfix=pf)
